@@ -35,6 +35,10 @@ func genPacket(r *gen.Rand) (p packet.Packet, pay []byte, hasPay bool) {
 		p[1] |= 0x40
 	}
 	p[3] &^= 0x30
+	if r.Chance(24) {
+		// adaptation_field_control 00: neither flag, no payload ("all packets" includes the reserved value)
+		return p, nil, false
+	}
 	switch r.Intn(6) {
 	case 0: // adaptation field only
 		p[3] |= 0x20
@@ -145,8 +149,8 @@ func run(c *mon.Ctx) {
 	c.Floor("event.predicate_error", 100)
 	c.Floor("event.no_payload", 300)
 	c.Floor("concurrent.calls", 5000)
-	c.Stream("concurrent-accumulators", c.N(3, 150), func(i int, r *gen.Rand) {
-		c.Concurrent("accumulators of their own", 8, 300, r, func(q *gen.Rand) string {
+	c.Stream("concurrent-accumulators", c.N(8, 200), func(i int, r *gen.Rand) {
+		c.Concurrent("accumulators of their own", 8, 2400, r, func(q *gen.Rand) string {
 			T := 200 + q.Intn(800)
 			acc := packet.NewAccumulator(func(b []byte) (bool, error) { return len(b) >= T, nil })
 			var want []byte
